@@ -16,12 +16,29 @@ shared qubits are the legs `i` with `d_i = s_i` (all `|d_i| = 1`); the cube is c
 differ in an odd number of places and the overlap is 0 or 2; a leg that is not a qubit (z legs of
 the bottom / top layer) is an edge of no cube, and the triangles whose y leg would be missing are
 exactly the `rough_triangle`s that the class drops (`edge_triangle` is implied by `rough_triangle`).
+
+Rank clause, for all sizes of the supported family `Lx, Ly ≥ 2`, `Lz ≥ 1`
+(`⌈Lx(Ly+1)(Lz−1)/2⌉ + 4(Lx−1)(Ly−1)Lz` generators; the four triangles of a vertex with
+`0 < y < 2Ly−2` multiply to the identity and so do the eight corner triangles of an uncoloured cube
+not cut by an x boundary): all cubes, all triangles of axis 3 and 2, the axis-1 triangles of the row
+`y = 2Ly−2`, the axis-0 triangles of the column `x = 2Lx−2` and, in the other columns, the upper one
+(`(x+y+z) % 4 = 2`, `z ≥ 2`) of the two axis-0 triangles pointing into the same uncoloured cube, are
+independent (`generators_independent`, via a triangular family of single-qubit probes,
+`Proofs/LatRhombicPlanarCodeRank2.lean`) and there are exactly `n − 1` of them (`generators_count`;
+checkerboard counting lemma `Proofs/LatRhombicCount.lean`).  `valid_code` puts everything together
+through the generic bridges `Proofs/OpComm.lean` and `Proofs/Lat2DRankBridge.lean` /
+`Proofs/Lat2DRankSubset.lean`: the matrices that `stabilizer_matrix`, `logicals_x`, `logicals_z` of
+the generic code model (`Model/Code.lean`, C02) assemble from this lattice model form a valid
+`[[n, 1]]` stabilizer code (`ValidCodeL`: all four clauses of C01, rank included) for EVERY size of
+the family.
 -/
-import PanqecVerif.Proofs.LatRhombicPlanarCode4
+import PanqecVerif.Proofs.LatRhombicPlanarCode5
+import PanqecVerif.Proofs.LatRhombicPlanarCodeRank2
+import PanqecVerif.Proofs.Lat2DRankSubset
 
 namespace Panqec.C01RhombicPlanarCode
 
-open Panqec Panqec.RhombicPlanarCode
+open Panqec Panqec.RhombicPlanarCode Panqec.Lat2D
 
 /-- Coordinates are distinct, qubit and stabilizer coordinates are disjoint, every stabilizer and
     logical operator is a dict (distinct keys) supported on qubits with letters X/Y/Z, and no
@@ -47,6 +64,49 @@ theorem n_formula (Lx Ly Lz : Nat) : (lattice Lx Ly Lz).toCodeData.n =
 /-- `k = 1` (every size) -/
 theorem k_value (Lx Ly Lz : Nat) : (lattice Lx Ly Lz).toCodeData.k = 1 :=
   length_logX Lx Ly Lz
+
+/-- the number of stabilizer generators (every size with `Ly ≥ 1`): the coloured cubes of the box
+    `Lx × (Ly+1) × (Lz−1)` (half of it rounded up; the half cubes `y = −1`, `y = 2Ly−1` of the rough
+    boundaries included) and `4(Lx−1)(Ly−1)Lz` triangles (the rough ones are dropped) -/
+theorem n_stabilizers (Lx Ly Lz : Nat) (hy : 1 ≤ Ly) :
+    (lattice Lx Ly Lz).toCodeData.stabs.length =
+      (Lx * ((Ly + 1) * (Lz - 1)) + 1) / 2 + 4 * ((Lx - 1) * (Ly - 1) * Lz) :=
+  length_stabs Lx Ly Lz hy
+
+/-- rank clause, operator level: the selected generators (all cubes; all triangles of axis 3 and 2;
+    axis 1 in the row `y = 2Ly−2`; axis 0 in the column `x = 2Lx−2`, and elsewhere those with
+    `(x+y+z) % 4 = 2`, `z ≥ 2`) are independent — every non-empty duplicate-free sub-family `T` has a
+    Pauli operator `d` on the qubits anticommuting with an odd number of members of `T` (so no
+    non-trivial product of them is trivial) — every `Lx, Ly ≥ 2`, every `Lz` -/
+theorem generators_independent (Lx Ly Lz : Nat) (hx : 2 ≤ Lx) (hy : 2 ≤ Ly) :
+    IndepGenerators (lattice Lx Ly Lz) (selStabs Lx Ly Lz) :=
+  indep_sel Lx Ly Lz hx hy
+
+/-- the independent family consists of `n − k` distinct stabilizer locations -/
+theorem generators_count (Lx Ly Lz : Nat) (hx : 2 ≤ Lx) (hy : 2 ≤ Ly) (hz : 1 ≤ Lz) :
+    (selStabs Lx Ly Lz).Nodup ∧ (∀ s ∈ selStabs Lx Ly Lz, s ∈ (lattice Lx Ly Lz).stabs) ∧
+    (selStabs Lx Ly Lz).length + (lattice Lx Ly Lz).toCodeData.k =
+      (lattice Lx Ly Lz).toCodeData.n :=
+  ⟨nodup_selStabs Lx Ly Lz, fun _ hs => selStabs_sub hx hy hs, selStabs_count Lx Ly Lz hx hy hz⟩
+
+/-- THE C01 STATEMENT FOR ALL SIZES of the supported family (`Lx, Ly ≥ 2`, `Lz ≥ 1`):
+    `stabilizer_matrix`, `logicals_x`, `logicals_z` of the generic code model, applied to this
+    lattice model, return (no `KeyError`) matrices that form a valid `[[n, 1]]` stabilizer code
+    (`n = Lx·Ly·Lz + (Lx−1)(Ly−1)Lz + (Lx−1)Ly(Lz−1)`): generators pairwise commute, logicals
+    commute with the generators, `ω(X, Z) = 1`, `ω(X, X) = ω(Z, Z) = 0`, and the generators have
+    GF(2) rank `n − 1` -/
+theorem valid_code (Lx Ly Lz : Nat) (hx : 2 ≤ Lx) (hy : 2 ≤ Ly) (hz : 1 ≤ Lz) :
+    stabilizerMatrix (lattice Lx Ly Lz).toCodeData = some (lattice Lx Ly Lz).rowsH ∧
+    logicalsX (lattice Lx Ly Lz).toCodeData = some (lattice Lx Ly Lz).rowsX ∧
+    logicalsZ (lattice Lx Ly Lz).toCodeData = some (lattice Lx Ly Lz).rowsZ ∧
+    ValidCodeL (Lx * Ly * Lz + (Lx - 1) * (Ly - 1) * Lz + (Lx - 1) * Ly * (Lz - 1)) 1
+      (lattice Lx Ly Lz).rowsH (lattice Lx Ly Lz).rowsX (lattice Lx Ly Lz).rowsZ := by
+  obtain ⟨hnd, hsub, hcount⟩ := generators_count Lx Ly Lz hx hy hz
+  have h := validCode_of_lattice_subset (lattice Lx Ly Lz) (wf Lx Ly Lz (by omega) (by omega))
+    (commPair Lx Ly Lz (by omega) (by omega) hz) (selStabs Lx Ly Lz) hnd hsub
+    (generators_independent Lx Ly Lz hx hy) hcount
+  rw [n_formula, k_value] at h
+  exact h
 
 /-- `qubit_axis` of a qubit is the direction of its edge (the odd coordinate) -/
 theorem qubit_axis_rule (Lx Ly Lz : Nat) (x y z : Int) (h : [x, y, z] ∈ (lattice Lx Ly Lz).qubits) :
@@ -112,6 +172,18 @@ example : getStab 2 2 2 [0, 2, 0, 0] = [([3, 0, 0], .Z), ([2, 1, 0], .Z)] := by 
 /-- an interior cube has all twelve edges -/
 example : (getStab 3 3 3 [3, 3, 3]).length = 12 := by decide +kernel
 example : opAntiCount ((logX 2 2 2).getD 0 []) ((logZ 2 2 2).getD 0 []) = 1 := by decide +kernel
+example : IndepGenerators (lattice 2 3 4) (selStabs 2 3 4) :=
+  generators_independent 2 3 4 (by decide) (by decide)
+example : (selStabs 2 2 2).length = 11 := by decide
+example : (selStabs 3 3 3).length = 50 := by decide +kernel
+example : ValidCodeL 41 1 (lattice 2 3 4).rowsH (lattice 2 3 4).rowsX (lattice 2 3 4).rowsZ :=
+  (valid_code 2 3 4 (by decide) (by decide) (by decide)).2.2.2
+/-- the smallest member of the family: 5 qubits, no cube, 4 triangles, rank 4 -/
+example : (lattice 2 2 1).stabs.length = 4 ∧ HasRank (2 * 5) (lattice 2 2 1).rowsH 4 :=
+  ⟨by decide, (valid_code 2 2 1 (by decide) (by decide) (by decide)).2.2.2.rank⟩
+/-- 60 generators, rank 50: the relations among the triangles are real -/
+example : (lattice 3 3 3).stabs.length = 60 ∧ HasRank (2 * 51) (lattice 3 3 3).rowsH 50 :=
+  ⟨by decide +kernel, (valid_code 3 3 3 (by decide) (by decide) (by decide)).2.2.2.rank⟩
 example : getDeformation "Checkerboard XZZX" [2, 2, 1] = some PauliMap.swapXZ := by decide
 example : getDeformation "Checkerboard XZZX" [2, 0, 1] = some PauliMap.id := by decide
 example : getDeformation "Checkerboard XZZX" [1, 1, 1] = none := by decide
